@@ -39,8 +39,10 @@ class PtrFacts(object):
         self.fn = fn
         self.align = {}
         self.origin = {}
-        self.slot_align = {}    # alloca name -> min guarantee of pointers stored in it
+        self.slot_align = {}    # (alloca name, byte offset | None) -> min guarantee of pointers stored there
         self.slot_origin = {}
+        self.slot_off = {}      # slot -> offset (within its base object) of the one pointer stored there | 'many'
+        self.off = {}           # pointer SSA name -> constant byte offset from its (single) base object, or None
         self.summaries = summaries
         self.solve()
 
@@ -85,6 +87,53 @@ class PtrFacts(object):
             return frozenset(['unknown'])
         return frozenset(['unknown'])
 
+    def val_off(self, tv):
+        t, v = tv
+        if v[0] == 'r':
+            return self.off.get(v[1])
+        if v[0] == 'g':
+            return 0
+        if v[0] == 'ce':
+            if v[1] in ('bitcast', 'addrspacecast'):
+                return self.val_off(v[2])
+            if v[1] == 'getelementptr':
+                b = self.val_off(v[3][0])
+                c = self.gep_const(v[2], v[3][1:])
+                return b + c if (b is not None and c is not None) else None
+        return None
+
+    def gep_const(self, bty, idx):
+        mod = self.mod
+        off = 0
+        t = bty
+        first = True
+        for (it, iv) in idx:
+            if iv[0] != 'c':
+                return None
+            w = mod.resolve(it)[1] if mod.resolve(it)[0] == 'i' else 64
+            c = iv[1] - (1 << w) if iv[1] >> (w - 1) else iv[1]
+            if first:
+                off += c * mod.sizeof(t)
+                first = False
+                continue
+            rt = mod.resolve(t)
+            if rt[0] == 's':
+                fo, et = mod.field_offset(rt, c)
+                off += fo
+                t = et
+            elif rt[0] in ('a', 'vec'):
+                off += c * mod.sizeof(rt[2])
+                t = rt[2]
+            else:
+                return None
+        return off
+
+    def slot_keys(self, s, off):
+        """slots of alloca s that a pointer at byte offset `off` (None: anywhere) may read"""
+        if off is None:
+            return [k for k in self.slot_align if k[0] == s]
+        return [k for k in ((s, off), (s, None)) if k in self.slot_align]
+
     def gep_align(self, base, bty, idx):
         mod = self.mod
         a = base
@@ -126,6 +175,7 @@ class PtrFacts(object):
                         a = max(a, at[1])
                 self.align[pn] = a
                 self.origin[pn] = frozenset(['param:' + pn])
+                self.off[pn] = 0
         instrs = list(fn.instrs())
         changed = True
         rounds = 0
@@ -137,18 +187,25 @@ class PtrFacts(object):
                 op = ins.op
                 na = None
                 no = None
+                if op == 'call' and self._apply_out_summary(ins):
+                    changed = True
                 if op == 'alloca':
                     na = ins.x['align'] or abi_align(mod, ins.x['aty'])
                     no = frozenset(['alloca:' + d])
+                    self.off[d] = 0
                 elif op in ('bitcast', 'addrspacecast'):
                     if is_ptr(mod, ins.ty):
                         na = self.val_align(ins.args[0])
                         no = self.val_origin(ins.args[0])
+                        self.off[d] = self.val_off(ins.args[0])
                 elif op == 'getelementptr':
                     base = self.val_align(ins.args[0])
                     no = self.val_origin(ins.args[0])
                     if base is not None:
                         na = self.gep_align(base, ins.x['bty'], ins.args[1:])
+                    bo = self.val_off(ins.args[0])
+                    co = self.gep_const(ins.x['bty'], ins.args[1:])
+                    self.off[d] = bo + co if (bo is not None and co is not None and no is not None and len(no) == 1) else None
                 elif op == 'load':
                     if is_ptr(mod, ins.ty):
                         src_o = self.val_origin(ins.args[0])
@@ -158,10 +215,17 @@ class PtrFacts(object):
                         others = [o for o in src_o if not o.startswith('alloca:')]
                         aa = None
                         oo = set()
+                        so = self.val_off(ins.args[0]) if len(src_o) == 1 else None
+                        offs = set()
                         for s in slots:
-                            if s in self.slot_align:
-                                aa = self.slot_align[s] if aa is None else min(aa, self.slot_align[s])
-                                oo |= self.slot_origin.get(s, set())
+                            for k in self.slot_keys(s, so):
+                                aa = self.slot_align[k] if aa is None else min(aa, self.slot_align[k])
+                                oo |= self.slot_origin.get(k, set())
+                                offs.add(self.slot_off.get(k, 'many'))
+                        self.off[d] = None
+                        if not others and len(offs) == 1 and len(oo) == 1:
+                            (o1,) = offs
+                            self.off[d] = o1 if o1 != 'many' else None
                         if others:
                             # a pointer stored in caller-visible memory: trust its declared type
                             da = abi_align(mod, pointee(mod, ins.ty))
@@ -183,16 +247,22 @@ class PtrFacts(object):
                         va = self.val_align(v)
                         vo = self.val_origin(v)
                         if dst_o is not None and va is not None and vo is not None:
+                            do = self.val_off(ins.args[1]) if len(dst_o) == 1 else None
                             for o in dst_o:
                                 if o.startswith('alloca:'):
-                                    s = o[7:]
+                                    s = (o[7:], do)
                                     old = self.slot_align.get(s)
                                     new = va if old is None else min(old, va)
                                     oldo = self.slot_origin.get(s, set())
                                     newo = oldo | set(vo)
-                                    if new != old or newo != oldo:
+                                    vof = self.val_off(v) if len(vo) == 1 else None
+                                    vof = 'many' if vof is None else vof
+                                    if s in self.slot_off and self.slot_off[s] != vof:
+                                        vof = 'many'
+                                    if new != old or newo != oldo or self.slot_off.get(s) != vof:
                                         self.slot_align[s] = new
                                         self.slot_origin[s] = newo
+                                        self.slot_off[s] = vof
                                         changed = True
                     continue
                 elif op in ('phi', 'select'):
@@ -252,6 +322,75 @@ class PtrFacts(object):
                     self.origin[d] = no
                     changed = True
 
+    def _apply_out_summary(self, ins):
+        """A callee that stores pointers through one of its pointer parameters (an out-structure filled with
+        addresses derived from its other arguments): when the actual argument is one of this function's stack
+        slots, the slot now holds pointers with the origins of the corresponding actual arguments."""
+        callee = ins.x['callee']
+        name = callee[1] if callee[0] == 'g' else None
+        outs = self.summaries.get(('out', name)) if name else None
+        if not outs:
+            return False
+        ch = False
+        for (kdst, koff), (srcs, al) in outs.items():
+            if kdst >= len(ins.args):
+                continue
+            dst_o = self.val_origin(ins.args[kdst])
+            if not dst_o:
+                continue
+            ao = self.val_off(ins.args[kdst]) if len(dst_o) == 1 else None
+            so = ao + koff if (ao is not None and koff is not None) else None
+            oo = set()
+            for o in srcs:
+                if o.startswith('param#'):
+                    k = int(o[6:])
+                    if k < len(ins.args):
+                        oo |= set(self.val_origin(ins.args[k]) or ['unknown'])
+                else:
+                    oo.add(o)
+            for o in dst_o:
+                if o.startswith('alloca:'):
+                    sl = (o[7:], so)
+                    old = self.slot_align.get(sl)
+                    new = al if old is None else min(old, al)
+                    oldo = self.slot_origin.get(sl, set())
+                    newo = oldo | oo
+                    if new != old or newo != oldo:
+                        self.slot_align[sl] = new
+                        self.slot_origin[sl] = newo
+                        ch = True
+        return ch
+
+    def out_summary(self):
+        """{index of a pointer parameter: (origins of the pointers stored through it, with params as 'param#k';
+        their minimal guaranteed alignment)}"""
+        out = {}
+        pidx = {pn: k for k, (pt, pn, _) in enumerate(self.fn.params)}
+        for ins in self.fn.instrs():
+            if ins.op != 'store' or not is_ptr(self.mod, ins.args[0][0]):
+                continue
+            dst_o = self.val_origin(ins.args[1]) or frozenset()
+            vo = self.val_origin(ins.args[0])
+            va = self.val_align(ins.args[0])
+            if vo is None:
+                vo = frozenset(['unknown'])
+            for d in dst_o:
+                if not d.startswith('param:'):
+                    continue
+                srcs = set()
+                for x in vo:
+                    if x.startswith('param:'):
+                        srcs.add('param#%d' % pidx[x[6:]])
+                    elif x.startswith('alloca:'):
+                        srcs.add('unknown')
+                    else:
+                        srcs.add(x)
+                k = (pidx[d[6:]], self.val_off(ins.args[1]) if len(dst_o) == 1 else None)
+                old = out.get(k)
+                a = va if va is not None else 1
+                out[k] = (srcs | (old[0] if old else set()), min(a, old[1]) if old else a)
+        return out
+
     def ret_summary(self):
         """origins of returned pointers, with params as 'param#k'"""
         out = set()
@@ -281,6 +420,7 @@ def analyse_module(mod, only=None):
             pf = PtrFacts(mod, fn, summaries)
             facts[name] = pf
             summaries[name] = pf.ret_summary()
+            summaries[('out', name)] = pf.out_summary()
     return facts
 
 
